@@ -220,5 +220,6 @@ func (p *Prog) IsTestSupport(f *Func) bool {
 		return true
 	}
 	fn := p.Fset.Position(f.Pos()).Filename
-	return strings.HasSuffix(fn, "/testing.go") || strings.HasSuffix(fn, "/testwaker.go")
+	// fuzz.go is the go-fuzz harness (build tag gofuzz): it compiles and runs programs on its own, outside the daemon
+	return strings.HasSuffix(fn, "/testing.go") || strings.HasSuffix(fn, "/testwaker.go") || strings.HasSuffix(fn, "/fuzz.go")
 }
